@@ -386,7 +386,7 @@ def rule_pattern_handover(ctx):
             src = ti.expr_of_operand(t["args"][1])
             db, dn = field_chain(dst)
             sbase, sn = field_chain(src)
-            if dn == ["pattern"] and sn == ["pattern"] and sbase[0] == "arg" and db[0] != "arg" and ti.dominates(bi, sb):
+            if dn[-1:] == ["pattern"] and sn == ["pattern"] and sbase[0] == "arg" and db[0] != "arg" and ti.dominates(bi, sb):
                 good = True
     if good:
         ctx.ok(site(ti, sb), "worker pattern := matcher's current pattern before every spawn")
